@@ -770,6 +770,10 @@ def handleOp (d : DState) (p : Pending) (res : List String) : DState := Id.run d
         -- a failed build: whatever it left is discarded by the abort the protocol requires
         return { d with resync := true, preBuild := none, nCancelled := d.nCancelled + 1 }
     let _ := ok
+    -- the database running out of space can strike at any write: the model cannot predict where; the
+    -- transaction must then be aborted (the next dump is compared with the committed state)
+    if res.take 2 == ["err", "mapfull"] then
+      return { d with resync := true, preBuild := none, nCancelled := d.nCancelled + 1 }
     let some (normals, rands, batches) := splitEventsFor c.metric p.evs.toList | return d.diff "unparsable events" "" ""
     let st0 : BState := { store := s, cancelAt := args.cancel, normals, rands, batches }
     let refKey := p.toks.filter fun t => !(t.startsWith "cancel=")
